@@ -372,6 +372,55 @@ def expand_closures(text, root, record):
     return CLOSURE_RE.sub(repl, text)
 
 
+LOOPSTEP_RE = re.compile(r"^[ \t]*//@@[ \t]*loopstep[ \t]*:[ \t]*(\S+)[ \t]*::[ \t]*(.*?)[ \t]*::[ \t]*(.*?)[ \t]*=>[ \t]*(.*?)[ \t]*;;[ \t]*(.*?)[ \t]*;;[ \t]*(.*?)[ \t]*;;[ \t]*(.*)$", re.M)
+PREFIX_RE = re.compile(r"^[ \t]*//@@[ \t]*prefix[ \t]*:[ \t]*(\S+)[ \t]*::[ \t]*(.*?)[ \t]*::[ \t]*(.*?)[ \t]*=>[ \t]*(.*?)[ \t]*;;[ \t]*(.*)$", re.M)
+
+
+def expand_loopsteps(text, root, record):
+    """//@@ loopstep: <relpath> :: <fn locator> :: <loop head, e.g. loop> => <signature> ;; <prologue> ;; <guard> ;; <epilogue>
+    ONE-ITERATION FORM of a loop of the real function: the loop's block is copied verbatim; the driver adds only the new
+    signature, the prologue (declares the loop's free variables from the parameters), a guard as the first statement of
+    the block (returns after one full iteration) and the epilogue after the loop (reached through the loop's own break).
+    //@@ prefix: <relpath> :: <fn locator> :: <until literal> => <signature> ;; <epilogue>
+    the text of the function from its opening brace up to the `until` literal, verbatim, followed by the epilogue."""
+
+    def _fn_block(item):
+        mask = strip_comments_mask(item)
+        b0 = mask.find("{")
+        return mask, b0, match_brace(mask, b0)
+
+    def repl_loop(m):
+        rel, locator, head, sig, prologue, guard, epilogue = [m.group(i) for i in range(1, 8)]
+        item = extract_item(rel, locator, root)
+        mask, f0, f1 = _fn_block(item)
+        mm = re.search(r"\b" + re.escape(head) + r"\s*\{", mask[f0:f1])
+        if not mm:
+            raise LookupError("anchor lost: loop head %r not found in %s" % (head, locator))
+        b0 = f0 + mm.end() - 1
+        b1 = match_brace(mask, b0)
+        inner = item[b0 + 1:b1]
+        record.append({"source": ("src/" + rel) if not rel.startswith("src/") else rel, "item": locator + " / loop " + head,
+                       "sha256_of_source_span": sha256(inner), "renamed_to": sig,
+                       "substitutions": ["one-iteration form: prologue, guard and epilogue added by the contract; loop block verbatim"]})
+        return "%s {\n%s\n%s {\n%s\n%s\n}\n%s\n}" % (sig, prologue, head, guard, inner, epilogue)
+
+    def repl_prefix(m):
+        rel, locator, until, sig, epilogue = [m.group(i) for i in range(1, 6)]
+        item = extract_item(rel, locator, root)
+        mask, f0, f1 = _fn_block(item)
+        k = mask.find(until, f0)
+        if k < 0:
+            raise LookupError("anchor lost: prefix end %r not found in %s" % (until, locator))
+        inner = item[f0 + 1:k]
+        record.append({"source": ("src/" + rel) if not rel.startswith("src/") else rel, "item": locator + " / prefix up to " + until,
+                       "sha256_of_source_span": sha256(inner), "renamed_to": sig,
+                       "substitutions": ["function text up to the loop, verbatim; epilogue added by the contract"]})
+        return "%s {\n%s\n%s\n}" % (sig, inner, epilogue)
+
+    text = LOOPSTEP_RE.sub(repl_loop, text)
+    return PREFIX_RE.sub(repl_prefix, text)
+
+
 def expand_bodies(text, root, record):
     """//@@ body: <relpath> :: <locator> => <newname> [pub] [subst:a=>b,...]
     is replaced by the verbatim text of the function with only its name changed."""
@@ -399,6 +448,7 @@ def expand_bodies(text, root, record):
 
     text = expand_items(text, root, record)
     text = expand_closures(text, root, record)
+    text = expand_loopsteps(text, root, record)
     text = re.sub(r"^[ \t]*//@@stubs-tables[ \t]*$", TABLE_STUBS, text, flags=re.M)
     text = re.sub(r"^[ \t]*//@@stubs-indicator[ \t]*$", INDICATOR_STUBS, text, flags=re.M)
     return BODY_RE.sub(repl, text)
